@@ -31,7 +31,13 @@ for name, meta in sorted(idx.items()):
         sh("git -C /repo checkout -- .")
     json.dump(results, open(res_path, 'w'), indent=1)
 # RESULTS.md
-lines = ["# Mutant results", "", "Each patch is applied to /repo, the pinned 242-test suite is run (a mutant only counts when it stays green),", "then the property's quick check is run; /repo is restored afterwards. `detected` = exit 1 with a VIOLATION line.", "", "| patch | property | kind | suite green | detected | violated clauses (first) |", "|---|---|---|---|---|---|"]
+lines = ["# Mutant results", "", "Each patch is applied to /repo, the pinned 242-test suite is run (a mutant only counts when it stays green),", "then the property's quick check is run; /repo is restored afterwards. `detected` = exit 1 with a VIOLATION line.", "", "Control mutants are property-preserving on purpose: the check must stay silent on them (exit 0).", "", "| patch | property | kind | suite green | detected | violated clauses (first) |", "|---|---|---|---|---|---|"]
 for name, r in sorted(results.items()):
-    lines.append(f"| {name} | {r.get('property')} | {r.get('kind')} | {r.get('suite_green')} | {r.get('detected')} | {'; '.join(r.get('clauses', [])[:2])} |")
+    what = idx.get(name, {}).get('what', '')
+    kind = 'control (property-preserving)' if 'control mutant' in what else r.get('kind')
+    lines.append(f"| {name} | {r.get('property')} | {kind} | {r.get('suite_green')} | {r.get('detected')} | {'; '.join(r.get('clauses', [])[:2])} |")
+hand = [r for n, r in results.items() if 'control mutant' not in idx.get(n, {}).get('what', '')]
+ctl = [r for n, r in results.items() if 'control mutant' in idx.get(n, {}).get('what', '')]
+green = [r for r in hand if r.get('suite_green')]
+lines += ["", f"Summary: {len(green)} non-control patches keep the suite green, {sum(1 for r in green if r.get('detected'))} of them detected; {len(hand) - len(green)} break the pinned suite ({sum(1 for r in hand if not r.get('suite_green') and r.get('detected'))} of those also detected); {len(ctl)} controls, {sum(1 for r in ctl if r.get('check_exit') == 0)} silent."]
 open('mutants/RESULTS.md', 'w').write('\n'.join(lines) + '\n')
